@@ -424,6 +424,11 @@ func genCase(t *rapid.T) Case {
 		sep := []string{",", ",", "", "", " ", ";"}[rapid.IntRange(0, 5).Draw(t, "cutsep")]
 		a := rt.Req{M: m, P: path, H: [][2]string{{last[0], p1 + sep + p2}, {last[2], p3}}}
 		b := rt.Req{M: m, P: path, H: [][2]string{{last[0], p1}, {last[2], p2 + sep + p3}}}
+		if sep == "" && rapid.Bool().Draw(t, "palindromic") {
+			// values that read alike side by side in either order of the two headers
+			x := []string{"7", "1", "a", "v1"}[rapid.IntRange(0, 3).Draw(t, "unit")]
+			a.H, b.H = [][2]string{{last[0], x + x}, {last[2], x}}, [][2]string{{last[0], x}, {last[2], x + x}}
+		}
 		if rapid.Bool().Draw(t, "shiftorder") {
 			a, b = b, a
 		}
